@@ -1173,6 +1173,9 @@ def observe_alias_engine(m, options):
             f = ca.Function("tmp", s_mx, [eq]).expand()
             s_sx = [ca.SX.sym(x.name(), *x.shape) for x in s_mx]
             e = f.call(s_sx)[0]
+            if isinstance(e, ca.DM):        # an equation without symbols; the real loop calls symvar on it as well
+                views.append([i, ["const", fstr(Fraction(float(e)))] if e.numel() == 1 else ["nonscalar", []]])
+                continue
             views.append([i, ser_mx(e)])
         deps = ca.symvar(e)
         nonp = [s for s in deps if s.name() not in params and s.name() not in consts]
@@ -1202,6 +1205,9 @@ def lean_opts(options, m_pre):
 
 
 def _env_points(rng, names, n=3):
+    # points depend on the symbol names only, so that the tie never disturbs the generator's stream
+    import random as _random
+    rng = _random.Random("|".join(sorted(names)))
     pts = []
     for _ in range(n):
         pts.append([[nm, fstr(Fraction(rng.choice([1, 2, 3, 5, 7, -1, -2, -3, -5, 4, -4, 6]), rng.choice([1, 1, 2])))]
